@@ -1,5 +1,6 @@
 import MptModel.Impl.Ident
 import MptModel.Spec.Ident
+import MptModel.Impl.IdentAbs
 import Driver.Util
 namespace Driver.Ident
 open Mpt Mpt.Ident
@@ -110,36 +111,35 @@ def specOf (s : DSys) (k : Nat) : Val := ((s.spec[k]?).getD none).getD Val.unset
 
 def maxSlots : Nat := 16
 
-/-- the effective name operand as the spec sees it -/
-def nameOf (name : Option (List Byte)) (len : Int) : Option Name :=
-  match name with
-  | some b => if len < 0 then some (.text (cstr b)) else some (.text (b.take len.toNat))
-  | none => if len < 0 then none else some (.null len.toNat)
-
 /-- the harness releases what an ended identifier left behind -/
 def reap (m : Mpt.Ident.Sys) (k : Nat) : Mpt.Ident.Sys :=
   { m with heap := ⟨m.heap.blocks.map fun b => if b.live && b.owner == k then { b with live := false } else b⟩ }
 
-/-- run one model operation and print it; `spOk` is the spec state if the operation reports success -/
-def runOp (s : DSys) (op : Op) (alts : Alts) (spOk : List (Option Val)) : DSys × String :=
+/-- run one model operation and print it.  The spec column is the value-level machine of Spec/Ident.lean
+    (`Vals.step` on `Op.abs op` — the functions `history_refines_values` is about) with the verdict `verdict`. -/
+def runOp (s : DSys) (op : Op) (verdict : String) : DSys × String :=
+  let sp' : Vals := Vals.step s.spec op.abs
+  let alts : Alts := [(verdict, sp')]
   match s.m.step op with
   | .error f => (s, line s!"FAULT:{faultName f}" s alts)
   | .ok (m', res) =>
     match res, op with
     | .invalid, _ => (s, "bad-op")
     | .done ok, _ =>
-      let s' : DSys := { s with m := m', spec := if ok then spOk else s.spec }
+      let s' : DSys := { s with m := m', spec := sp' }
       (s', line (if ok then "ok" else "refused") s' alts)
     | .ended leaked, .free k | .ended leaked, .tfini k =>
-      let s' : DSys := { m := reap m' k, spec := spOk, nodes := s.nodes.filter (· != k) }
+      let s' : DSys := { m := reap m' k, spec := sp', nodes := s.nodes.filter (· != k) }
       (s', line s!"ok leaked={leaked}" s' alts)
     | .ended leaked, _ =>
-      let s' : DSys := { s with m := m', spec := spOk }
+      let s' : DSys := { s with m := m', spec := sp' }
       (s', line s!"ok leaked={leaked}" s' alts)
 
-def newSlot (s : DSys) (size : Nat) : DSys × String :=
-  let sp' := s.spec ++ [some Val.unset]
-  runOp s (.new size) [("ok", sp')] sp'
+/-- verdict the property demands of a set: refused exactly beyond the documented limit -/
+def setVerdict (name : Option (List Byte)) (len : Int) : String :=
+  if ((nameOf name len).bind setVal).isSome then "ok" else "refused"
+
+def newSlot (s : DSys) (size : Nat) : DSys × String := runOp s (.new size) "ok"
 
 def step (s : DSys) (w : List String) : DSys × String :=
   match w with
@@ -176,9 +176,7 @@ def step (s : DSys) (w : List String) : DSys × String :=
         | some b => len > (b.length : Int)
       if bad then (s, "bad-op")
       else
-        match (nameOf name len).bind setVal with
-        | some v => let sp' := s.spec.set k (some v); runOp s (.set k name len) [("ok", sp')] sp'
-        | none => runOp s (.set k name len) [("refused", s.spec)] s.spec
+        runOp s (.set k name len) (setVerdict name len)
     | _, _, _ => (s, "bad-op")
   | ["i", "setself", kw, ow, lw] =>
     -- the name is part of the identifier's own current content
@@ -189,9 +187,7 @@ def step (s : DSys) (w : List String) : DSys × String :=
         if off + ln > id.len then (s, "bad-op")
         else
           let name := (d.drop off).take ln
-          match setVal (.text name) with
-          | some v => let sp' := s.spec.set k (some v); runOp s (.set k (some name) ln) [("ok", sp')] sp'
-          | none => runOp s (.set k (some name) ln) [("refused", s.spec)] s.spec
+          runOp s (.set k (some name) ln) (setVerdict (some name) ln)
       | .error _ => (s, "bad-op")
     | _, _, _ => (s, "bad-op")
   | "i" :: "locate" :: kw :: pw :: dw :: rest =>
@@ -235,10 +231,7 @@ def step (s : DSys) (w : List String) : DSys × String :=
       let src : Option (Option Nat) := if jw = "null" then some none else (getSlot s jw).map fun p => some p.1
       match src with
       | none => (s, "bad-op")
-      | some o =>
-        let v : Val := match o with | some j => specOf s j | none => Val.unset
-        let sp' := s.spec.set k (some v)
-        runOp s (.copy k o) [("ok", sp')] sp'
+      | some o => runOp s (.copy k o) "ok"
     | none => (s, "bad-op")
   | "i" :: "cmp" :: kw :: dw :: rest =>
     match getSlot s kw, parseBytes dw, (match rest with | [] => some none | [l] => (parseLen l).map some | _ => none) with
@@ -268,7 +261,7 @@ def step (s : DSys) (w : List String) : DSys × String :=
     | _, _ => (s, "bad-op")
   | ["i", "free", kw] =>
     match getSlot s kw with
-    | some (k, _) => let sp' := s.spec.set k none; runOp s (.free k) [("ok leaked=0", sp')] sp'
+    | some (k, _) => runOp s (.free k) "ok leaked=0"
     | none => (s, "bad-op")
   | ["i", "tinit", jw] =>
     let src : Option (Option Nat) := if jw = "null" then some none else (getSlot s jw).map fun p => some p.1
@@ -277,8 +270,7 @@ def step (s : DSys) (w : List String) : DSys × String :=
     | some o =>
       if s.m.ids.length ≥ maxSlots then (s, "bad-op")
       else
-        let v : Val := match o with | some j => specOf s j | none => Val.unset
-        let sp' := s.spec ++ [some v]
+        let sp' : Vals := Vals.step s.spec (Op.abs (.tinit o))
         -- a refused copy construction still occupies the slot
         match s.m.step (.tinit o) with
         | .error f => (s, line s!"FAULT:{faultName f}" s [("ok", sp')])
@@ -287,7 +279,7 @@ def step (s : DSys) (w : List String) : DSys × String :=
           (s', line (if res == .done true then "ok" else "refused") s' [("ok", sp')])
   | ["i", "tfini", kw] =>
     match getSlot s kw with
-    | some (k, _) => let sp' := s.spec.set k none; runOp s (.tfini k) [("ok leaked=0", sp')] sp'
+    | some (k, _) => runOp s (.tfini k) "ok leaked=0"
     | none => (s, "bad-op")
   | _ => (s, "bad-op")
 
